@@ -159,7 +159,7 @@ func c06Err(family, msg string) string {
 
 func genC06(c *Ctx) error {
 	c.ShardSize = 10
-	c.Notes["rule"] = "one deployed token chaincode (TT) next to a second channel (VT); issuer, fee setter, admin and two users. Sequences of 25-45 operations drawn from the union: emit, burn, transfer (fee unset / in TT / in VT, fee address = a user, also the sender), buyToken / buyBack, lock / unlock of token and allowed balances, channelTransferByCustomer / ByAdmin with createCCTransferTo / cancel / commit / delete, swapBegin (both routes) / cancel / robot answer / robot done / user done, the same for multi-swaps (1-3 assets, duplicates, three-part tickers), forced transferBalance by the admin - with amounts 0, 1, balance-1, exactly the balance, balance+1, 2^64+x, 2^256 and random ones, all account pairs incl. self. After every step: error class, every balance of every kind, the total emission in the token metadata, all swap / multi-swap / transfer records. Non-trivial: >= 4 operation families used and >= 8 successful steps."
+	c.Notes["rule"] = "one deployed token chaincode (TT) next to a second channel (VT); issuer, fee setter, admin and two users. Sequences of 25-45 operations drawn from the union: emit, burn, transfer (fee unset / in TT / in VT, fee address = a user, also the sender), buyToken / buyBack, lock / unlock of token and allowed balances, channelTransferByCustomer / ByAdmin with createCCTransferTo / cancel / commit / delete, swapBegin (both routes) / cancel / robot answer / robot done / user done, the same for multi-swaps (1-3 assets, duplicates, three-part tickers), forced transferBalance by the admin - with amounts 0, 1, balance-1, exactly the balance, balance+1, 2^64+x, 2^256 and random ones, all account pairs incl. self. After every step: error class, every balance of every kind, the total emission in the token metadata, all swap / multi-swap / transfer records. Non-trivial: >= 4 operation families used and >= 8 successful steps. Half of the token operations share their batch with a second, successful transaction that writes nothing (what a rejected operation wrote before it failed must not surface through a neighbour)."
 	n := c.N(60, 1500)
 	for i := 0; i < n; i++ {
 		if err := c06Case(c); err != nil {
@@ -241,8 +241,33 @@ func c06Case(c *Ctx) error {
 			giveAllowed(u, "VT_G1", int64(1+rng.Intn(300)))
 		}
 	}
+	// Half of the time the operation's transaction shares its batch with a second, successful transaction that writes
+	// nothing (a script that only reads, signed by a bystander): whatever a rejected operation wrote before it failed
+	// must not surface through its neighbour.
+	bystander := w.NewAccount(fpb.KeyType_ed25519)
 	tokRun := func(acc *Account, fn string, args ...string) string {
-		return tokenRun(w, "tt", acc, &cw.nonce, fn, args...)
+		if rng.Intn(2) == 0 {
+			return tokenRun(w, "tt", acc, &cw.nonce, fn, args...)
+		}
+		cw.nonce++
+		sub := w.Submit("tt", fn, w.SignedArgs("tt", fn, acc, strconv.FormatUint(cw.nonce, 10), args...))
+		if !sub.OK() {
+			return sub.Message
+		}
+		cw.nonce++
+		nb := w.Submit("tt", "script", w.SignedArgs("tt", "script", bystander, strconv.FormatUint(cw.nonce, 10), "get,d0"))
+		if !nb.OK() {
+			return "BATCH FAILED: neighbour refused: " + nb.Message
+		}
+		out := w.ExecBatchIDs("tt", sub.TxID, nb.TxID)
+		if out.Resp == nil || len(out.Resp.GetTxResponses()) != 2 {
+			return "BATCH FAILED: " + out.Res.Message
+		}
+		if e := out.Resp.GetTxResponses()[1].GetError().GetError(); e != "" {
+			return "BATCH FAILED: neighbour failed: " + e
+		}
+		c.Count("operation_with_neighbour_in_batch")
+		return out.Resp.GetTxResponses()[0].GetError().GetError()
 	}
 	pick := func() *Account { return parties[rng.Intn(len(parties))] }
 	swIDs := []string{"a1", "a2", "a3"}
@@ -261,6 +286,17 @@ func c06Case(c *Ctx) error {
 				record("tok", fmt.Sprintf("UEmitG %d %d %d %s", w.Issuer.N(), u.N(), cw.grpN[g], coqZ(amt)), msg, "None")
 			}
 		}
+	}
+	if rng.Intn(2) == 0 {
+		// half of the histories start with a fee in force (own token, positive floor) and a fee address among the parties,
+		// so that transfers pay fees - also transfers sent BY the fee address, whose fee moves from the sender to the sender
+		share, floor, cp := int64([]int{0, 1000000, 50000000}[rng.Intn(3)]), int64(1+rng.Intn(19)), int64([]int{0, 1000}[rng.Intn(2)])
+		msg := tokRun(w.FeeSet, "setFee", "TT", strconv.FormatInt(share, 10), strconv.FormatInt(floor, 10), strconv.FormatInt(cp, 10))
+		record("tok", fmt.Sprintf("UTok (OSetFee %d %d %s %s %s)", w.FeeSet.N(), cw.chNum("TT"), coqZi(share), coqZi(floor), coqZi(cp)), msg, "None")
+		fa := pick()
+		feeAddr = fa
+		msg = tokRun(w.FeeSet, "setFeeAddress", fa.AddrString())
+		record("tok", fmt.Sprintf("UTok (OSetFeeAddr %d %d)", w.FeeSet.N(), fa.N()), msg, "None")
 	}
 	for k := 25 + rng.Intn(21); k > 0; k-- {
 		switch r := rng.Intn(100); {
